@@ -131,23 +131,27 @@ def formula_of(case):
 SUMC = {"C(f, Sum)": "f", "S(f2)": "f2"}
 
 
-def atom_value(atom, df):
+def atom_value(atom, df, train=None):
+    """Value of an effect atom on df; parameters learnt from data (scale) and level sets come from `train`."""
+    train = df if train is None else train
     if atom in SUMC:
-        return frames.indicators(df[SUMC[atom]])[0]
+        return frames.indicators(df[SUMC[atom]], sorted(set(train[SUMC[atom]])))[0]
     if atom == "scale(x)":
         x = df["x"].to_numpy(dtype=float)
-        return ((x - x.mean()) / x.std())[:, None]
+        xt = train["x"].to_numpy(dtype=float)
+        return ((x - xt.mean()) / xt.std())[:, None]
     if atom in ("x", "z"):
         return df[atom].to_numpy(dtype=float)[:, None]
     col = df["k"] if atom == "C(k)" else df[atom]
     return frames.indicators(col)[0]
 
 
-def cells(fac_atoms, df):
+def cells(fac_atoms, df, train=None):
     """Complete indicator matrix of the cells of a grouping term + cell names (lexicographic)."""
+    train = df if train is None else train
     levs = []
     for a in fac_atoms:
-        col = df["k"] if a == "C(k)" else df[a]
+        col = train["k"] if a == "C(k)" else train[a]
         levs.append(sorted(set(col)))
     names, cols = [], []
     for combo in itertools.product(*levs):
@@ -160,19 +164,20 @@ def cells(fac_atoms, df):
     return np.column_stack(cols), names
 
 
-def label_value(lab, df):
+def label_value(lab, df, train=None):
+    train = df if train is None else train
     if lab == "1":
         return np.ones(len(df))
     val = np.ones(len(df))
     for piece in lab.split(":"):
         if piece in ("x", "z", "scale(x)"):
-            val = val * atom_value(piece, df)[:, 0]
+            val = val * atom_value(piece, df, train)[:, 0]
         else:
             name, _, lvl = piece.partition("[")
             lvl = lvl[:-1]
             if name in SUMC:  # sum coding: indicator of the level minus indicator of the omitted (last) level; 'mean' is the constant
                 col = df[SUMC[name]]
-                last = sorted(set(col))[-1]
+                last = sorted(set(train[SUMC[name]]))[-1]
                 if lvl == "mean":
                     continue
                 val = val * (np.array([1.0 if str(v) == lvl else 0.0 for v in col]) - np.array([1.0 if v == last else 0.0 for v in col]))
@@ -197,6 +202,69 @@ def expected_terms(case):
                 seen.add(ident)
                 name = ("1" if ef is None else ":".join(ef)) + "|" + ":".join(fac)
                 out[name] = (ef, fac)
+    return out
+
+
+def block_of(name, Z, t, ef, fac, cur, train, what):
+    """Block clause for one term on frame `cur` (levels and learnt parameters from `train`); list of problems."""
+    out = []
+    Z = np.asarray(Z, dtype=float)
+    J, cnames = cells(fac, cur, train)
+    nc = J.shape[1]
+    if Z.ndim != 2 or Z.shape[0] != len(cur) or Z.shape[1] % nc != 0:
+        return [("block", "width", f"{name} {what}: shape {Z.shape} for {len(cur)} rows and {nc} groups")]
+    p = Z.shape[1] // nc
+    E = sum(Z[:, l * p : (l + 1) * p] for l in range(nc))
+    bad = [l for l in range(nc) if not np.array_equal(Z[:, l * p : (l + 1) * p], J[:, l : l + 1] * E)]
+    if bad:
+        out.append(("block", "slots", f"{name} {what}: slot(s) {bad} are not [group indicator] x [effect columns]"))
+    labs = t.labels
+    if labs is not None and len(labs) == Z.shape[1]:
+        for j in range(p):
+            lab = labs[j].split("|")[0]
+            try:
+                v = label_value(lab, cur, train)
+            except Exception:
+                continue
+            if not np.allclose(E[:, j], v, rtol=1e-10, atol=1e-12):
+                out.append(("block", "effect-values", f"{name} {what}: effect column {j} ({lab!r}) does not hold that value"))
+    return out
+
+
+def later_blocks(case, dm, exp, df, acc):
+    """Not from the initial state: (a) the group matrix evaluates three frames of equal size and other group membership one
+    after the other; (b) the same formula text builds a second design on other data.  Block clause on each result."""
+    from formulae import design_matrices
+
+    out = []
+    n = len(df)
+    h = n // 2
+    grp = dm.group
+    for step, idx in enumerate((list(range(h)), list(range(n - h, n)), list(range(h))[::-1])):
+        cur = df.iloc[idx].reset_index(drop=True)
+        acc.calls += 1
+        try:
+            r = grp.evaluate_new_data(cur)
+        except Exception as e:
+            return [("block", "new-data-raises", f"group.evaluate_new_data on {h} training rows raised {type(e).__name__}: {e}")]
+        for name in grp.terms:
+            if name in exp:
+                ef, fac = exp[name]
+                out += block_of(name, r[name], grp.terms[name], ef, fac, cur, df, f"on new frame {step + 1} of 3 (rows {idx[0]}..{idx[-1]})")
+        if out:
+            return out
+    other = df.iloc[::-1].reset_index(drop=True).copy()
+    other["x"] = other["x"] * 2 + 30
+    other["z"] = other["z"] - 4
+    acc.calls += 1
+    try:
+        dm2 = design_matrices(formula_of(case), other)
+    except Exception as e:
+        return [("block", "second-build-raises", f"the same formula on other data raised {type(e).__name__}: {e}")]
+    for name in dm2.group.terms:
+        if name in exp:
+            ef, fac = exp[name]
+            out += block_of(name, dm2.group[name], dm2.group.terms[name], ef, fac, other, other, "in a second design built from the same text on other data")
     return out
 
 
@@ -292,6 +360,8 @@ def check_case(case, acc):
                 if Z2.shape != np.asarray(grp.terms[name].data).shape or not np.array_equal(Z2, np.asarray(grp.terms[name].data, dtype=float)):
                     problems.append(("block", "later-build", f"{name}: group[{name!r}] changed after another design with the same term name was built"))
                     break
+    if not problems:
+        problems += later_blocks(case, dm, exp, df, acc)
     nontriv = any(set(a for t in EFFECTS[e] for a in t) & CATS or len(GROUPINGS[g]) > 1 or len(GROUPINGS[g][0]) > 1 for e, z, g in case["terms"])
     if problems:
         acc.case(f, "MISMATCH", sample=False)
